@@ -19,6 +19,17 @@ Oracles (at the public boundary)
   Q6 signal     OptimizeResult.success == False (seen by a sys.monitoring probe on
                 scipy.optimize.minimize as called from get_net_comp)  =>  the caller got a
                 warning or an exception.  Q1-Q5 are waived for runs signalled as failed.
+  Q7 function   the composition is a function of (network, feed, T, P) only.  The listed order is ONE
+                object driven through a call history (repeat of the bit-identical (T, P) after the
+                caller edited the returned arrays in place, same T other P, same P other T, A-B-A);
+                every call is checked by Q1-Q4/Q6, and in addition: a repeat / revisit returns the
+                first call's numbers, a history-laden object agrees with a newly built one, results
+                handed out earlier are not altered by later calls, and a network read with
+                from_thermdat agrees with the same network given as Nasa objects.  The thermdat path
+                string is reused on purpose (another file with the same species names was read and
+                solved at that path string before: overwritten file, or the same relative name in
+                another working directory).  Inputs are identical, so the tolerance is 1e-10 (observed 0)
+                and the mech carries no regime (the false-convergence finding cannot hide it).
 
 Every (network, feed, T, P) point is classified by the certified reference solution into a
 *regime* (an input feature, independent of what pMuTT returned): `regular` = every species has
@@ -36,16 +47,18 @@ import warnings
 from vf import core
 
 ID = 'C16'
-N = {'quick': 5000, 'thorough': 60000}
-BUDGET = {'quick': 600, 'thorough': 6000}       # seconds per shard; a slow tree is inconclusive, not a hang
+N = {'quick': 4000, 'thorough': 50000}
+BUDGET = {'quick': 800, 'thorough': 6000}       # seconds per shard; a slow tree is inconclusive, not a hang
 NT_RULE = ('case = one network (random: 2-12 species over 1-4 elements with generated NASA-7 '
            'coefficients, G/RT span <= 60 at each T, full-rank or rank-deficient formula matrix; or '
            'a subset of the pinned propane/steam thermdat) + feed containing every element + 1-3 '
-           '(T, P) points in 300-2500 K x 0.01-100 atm + a species permutation, drawn per case index '
+           '(T, P) points in 300-2500 K x 0.01-100 atm + a call history on one object (in-place edits of '
+           'results, repeats, pressure / temperature sweeps, returns) + a species permutation + element '
+           'dictionaries with explicit zero counts at random positions + a reused thermdat path, drawn per case index '
            'from a seeded PRNG after a list of directed cases; non-trivial = >=2 elements, >=4 '
            'species and >=1 independent reaction, solver converged and the certified reference '
            'solution compared; distinct = distinct canonical JSON of the case')
-REQUIRED_ORACLES = ['Q1', 'Q2', 'Q3', 'Q4', 'Q5', 'Q6']
+REQUIRED_ORACLES = ['Q1', 'Q2', 'Q3', 'Q4', 'Q5', 'Q6', 'Q7']
 REQUIRED_CLASSES = ['network:random', 'network:pinned', 'rank:full', 'rank:deficient',
                     'elements:1', 'elements:2', 'elements:3', 'elements:4',
                     'species:2-3', 'species:4-7', 'species:8-12',
@@ -55,7 +68,13 @@ REQUIRED_CLASSES = ['network:random', 'network:pinned', 'rank:full', 'rank:defic
                     'T:300', 'T:2500', 'T:<T_mid', 'T:>=T_mid', 'P:0.01', 'P:100', 'P:interior',
                     'perm:nontrivial', 'solver:ok', 'reactions:0', 'reactions:>=3',
                     'regime:regular', 'regime:deep_trace', 'regime:forced_zero', 'asserted:regular',
-                    'trace_species_present', 'thermdat:zero_count_slots', 'thermdat:superset']
+                    'trace_species_present', 'thermdat:zero_count_slots', 'thermdat:superset',
+                    'elements:zero_count_listed', 'elements:zero_count_leading',
+                    'elements:zero_count_leading(thermdat)', 'elements:zero_count_leading(model)',
+                    'history:thermdat_path_rewritten', 'history:thermdat_same_name_other_dir',
+                    'history:repeat_same_TP_after_inplace_edit', 'history:repeat_same_TP',
+                    'history:same_T_other_P', 'history:same_P_other_T',
+                    'history:revisit_after_other_conditions']
 REQUIRED_BRANCHES = ['Q4:minor_species', 'Q4:major_species_only']
 REQUIRED_PROBES = ['scipy.optimize.minimize', 'Equilibrium.get_net_comp', 'Equilibrium._objective',
                    'Equilibrium._constraints1_eq', 'Equilibrium.__init__', 'read_thermdat']
@@ -74,6 +93,12 @@ ASSUMPTIONS = [
     'outside the quantifier: there only Q1, Q2 and the signal clause Q6 are asserted (the witness of the '
     'discarded success flag, 300 K / 100 atm, is one of them); Q3-Q5 are recorded as telemetry',
     'feeds: amounts are 0 or >= 0.01 with three decimals; every element total > 0',
+    'element dictionaries may list elements with an explicit count of 0 (as read_thermdat produces for the '
+    'fixed element fields of an entry), also for elements that no species of the network contains and at any '
+    'position; such entries do not make the element part of the network',
+    'Q7: SLSQP is deterministic, so two solves with identical inputs (same object again, a newly built object, '
+    'the other API with the same 9-digit coefficients) must agree to rounding; in-place edits applied to a '
+    'returned composition are the caller\'s business and must not leak into later results',
     'Q4 measures the affinity of a reaction in the metric sqrt(sum nu_i^2/x_i): an error d in ln x_i '
     'costs n_i d^2/2 of Gibbs energy, so a minimiser that stops on the objective leaves d ~ 1/sqrt(x_i); '
     'for reactions among major species this is the plain |deltaG + RT ln Q| <= ~1e-3 RT',
@@ -92,6 +117,7 @@ TOL_Q2 = 1e-12
 TOL_Q3 = 1e-7          # * (1 + |G|)
 TOL_Q4 = 5e-4          # * sqrt(sum nu_i^2 / x_i)
 TOL_Q5 = 5e-6          # * sum(b)
+TOL_Q7 = 1e-10         # * sum(b)   (identical inputs, deterministic solver: observed 0)
 DEEP = 1e-8            # regime boundary: smallest equilibrium mole fraction (reference solution)
 
 PINNED_REL = os.path.join('pmutt', 'tests', 'equilibrium', 'thermdat_equilibrium_unittest.txt')
@@ -335,22 +361,42 @@ def _generate_random(rng):
     u = [rng.random() for _ in range(ns)]
     lo, hi = rng.sample(range(ns), 2)
     u[lo], u[hi] = 0.0, 1.0
-    zero_slots = rng.random() < 0.3
+    api = rng.choice(['model_list', 'model_dict', 'from_thermdat', 'from_thermdat'])
+    # how the element dictionaries are written: positive counts only | every network element with
+    # explicit zeros | thermdat-style fixed fields (network elements + elements NO species contains,
+    # one common random order, zeros explicit) | per-species random order with some explicit zeros
+    zmode = rng.choice(['none', 'none', 'slots', 'fixed_fields', 'fixed_fields', 'ragged'])
+    zero_slots = zmode != 'none'
+    room = (4 - ne) if api == 'from_thermdat' else 2
+    absent = []
+    if zmode in ('fixed_fields', 'ragged') and room > 0:
+        absent = rng.sample([e for e in POOL if e not in elems], rng.randint(1, room))
+    fields = list(elems) + absent
+    if zmode in ('fixed_fields', 'ragged'):
+        rng.shuffle(fields)
     used = set()
     species = []
     for i in range(ns):
         T_mid = round(rng.uniform(600.0, 1500.0), 2)
         al, ah = _gen_poly(rng, T_mid)
-        sp = {'name': _name(rng, comps[i], elems, i, used),
-              'elements': {e: v for e, v in zip(elems, comps[i]) if v > 0 or zero_slots},
+        count = dict(zip(elems, comps[i]))
+        if zmode == 'none':
+            eld = {e: v for e, v in zip(elems, comps[i]) if v > 0}
+        elif zmode == 'ragged':
+            keep = [f for f in fields if count.get(f, 0) > 0 or rng.random() < 0.5]
+            rng.shuffle(keep)
+            eld = {f: count.get(f, 0) for f in keep}
+        else:
+            eld = {f: count.get(f, 0) for f in fields}
+        sp = {'name': _name(rng, comps[i], elems, i, used), 'elements': eld,
               'T_low': rng.choice([200.0, 298.15, 300.0]), 'T_mid': T_mid,
               'T_high': rng.choice([2500.0, 3000.0, 5000.0]), 'a_low': al, 'a_high': ah}
         shift = (g0 + u[i] * span - g_ref(sp, T1)) * T1
         sp['a_low'] = [q9(v) for v in al[:5]] + [q9(al[5] + shift), q9(al[6])]
         sp['a_high'] = [q9(v) for v in ah[:5]] + [q9(ah[5] + shift), q9(ah[6])]
         species.append(sp)
-    if zero_slots and len(elems) < 4 and rng.random() < 0.5:
-        # an element that no species of the network contains (like N in the pinned file)
+    if zmode == 'slots' and len(elems) < 4 and rng.random() < 0.5:
+        # an element that no species of the network contains, as the last field (N in the pinned file)
         extra = rng.choice([e for e in POOL if e not in elems])
         for sp in species:
             sp['elements'][extra] = 0
@@ -367,17 +413,66 @@ def _generate_random(rng):
     perm = list(range(ns))
     while perm == list(range(ns)):
         rng.shuffle(perm)
-    api = rng.choice(['model_list', 'model_dict', 'from_thermdat', 'from_thermdat'])
+
+    def ok_T(T):
+        if any(abs(T - sp['T_mid']) < 0.05 for sp in species):
+            return False
+        gg = [g_ref(sp, T) for sp in species]
+        return max(gg) - min(gg) <= 60.0
+    good, calls = _gen_calls(rng, good, ok_T, lambda: _gen_T(rng))
     spec = {'network': 'random', 'api': api, 'species': species,
             'feed': [[sp['name'], f] for sp, f in zip(species, feed)],
-            'points': good, 'perm': perm}
+            'points': good, 'calls': calls, 'perm': perm}
     if api == 'from_thermdat':
         order = list(range(ns))
         rng.shuffle(order)
         spec['file_order'] = order
         spec['zero_slots'] = zero_slots
         spec['decoys'] = rng.choice([0, 0, 1, 3])
+        spec['reuse'] = rng.choice(['rewrite', 'rewrite', 'chdir'])
     return spec
+
+
+MUTATIONS = ('mmol', 'percent', 'normalise', 'zero_traces', 'sort')
+
+
+def _gen_calls(rng, points, ok_T, new_T):
+    """Call history on ONE Equilibrium object: every point at least once, plus (a) an immediate
+    repeat of a bit-identical (T, P) after the caller edited the returned arrays in place, (b) the
+    same T at another P, (c) a return to earlier conditions after other ones (A, B, A), (d) the same
+    P at another T.  Entries: [point index, in-place edit applied to the result | None, 'fresh' if
+    the result is also compared with a newly built object]."""
+    points = [list(p) for p in points]
+    calls = [[k, None] for k in range(len(points))]
+
+    def pos_of(k):
+        return max(i for i, c in enumerate(calls) if c[0] == k)
+    if rng.random() < 0.35:
+        k = rng.randrange(len(points))
+        i = pos_of(k)
+        calls[i][1] = rng.choice(MUTATIONS)
+        calls.insert(i + 1, [k, None])
+        if rng.random() < 0.3:                      # and once more, now unedited in between
+            calls.insert(i + 2, [k, None])
+    if rng.random() < 0.3:
+        k = rng.randrange(len(points))
+        T, P = points[k]
+        P2 = _gen_P(rng)
+        if P2 != P:
+            points.append([T, P2])
+            calls.insert(pos_of(k) + 1, [len(points) - 1, None, 'fresh'])
+    if len(points) >= 2 and rng.random() < 0.25:
+        k, j = rng.sample(range(len(points)), 2)
+        i = max(pos_of(k), pos_of(j))
+        calls.insert(i + 1, [k if calls[i][0] == j else j, None])
+    if rng.random() < 0.12:
+        k = rng.randrange(len(points))
+        T, P = points[k]
+        T2 = new_T()
+        if T2 != T and ok_T(T2):
+            points.append([T2, P])
+            calls.insert(pos_of(k) + 1, [len(points) - 1, None, 'fresh'])
+    return points, calls
 
 
 def _nudge(T):
@@ -414,8 +509,10 @@ def _generate_pinned(rng):
     perm = list(range(len(names)))
     while perm == list(range(len(names))):
         rng.shuffle(perm)
+    pts, calls = _gen_calls(rng, pts, lambda T: True,
+                            lambda: _nudge(round(rng.uniform(300.0, 1500.0), 1)))
     return {'network': 'pinned', 'api': 'from_thermdat', 'names': names,
-            'feed': [[n, f] for n, f in zip(names, feed)], 'points': pts, 'perm': perm}
+            'feed': [[n, f] for n, f in zip(names, feed)], 'points': pts, 'calls': calls, 'perm': perm}
 
 
 def _mk_sp(name, elements, g_at_1000, cp=3.5, s=20.0):
@@ -494,6 +591,38 @@ def directed(tier):
               'feed': [['CO', 1], ['H2O', 1], ['CO2', 0], ['H2', 0]],
               'points': [[1000.0, 0.01], [1000.0, 100.0]], 'perm': [3, 2, 1, 0],
               'file_order': [2, 0, 3, 1], 'zero_slots': True, 'decoys': 2})
+    # ---- call histories on one object (repeat after an in-place edit, pressure sweep at one T, A-B-A)
+    D.append({'network': 'random', 'api': 'from_thermdat', 'species': wgs,
+              'feed': [['CO', 1], ['H2O', 1.5], ['CO2', 0], ['H2', 0]],
+              'points': [[900.0, 2.0], [900.0, 20.0], [1200.0, 2.0]],
+              'calls': [[0, 'mmol'], [0, None], [0, 'normalise'], [0, None], [1, None, 'fresh'], [2, None, 'fresh'],
+                        [0, None], [1, 'percent'], [1, None]],
+              'perm': [2, 0, 3, 1], 'file_order': [0, 1, 2, 3], 'zero_slots': True, 'decoys': 0, 'reuse': 'chdir'})
+    D.append({'network': 'pinned', 'api': 'from_thermdat', 'names': PINNED_ORDER, 'feed': std,
+              'points': [[1300.0, 1.0], [1300.0, 100.0], [1000.0, 1.0], [1300.0, 0.01]],
+              'calls': [[0, 'zero_traces'], [0, None], [1, None, 'fresh'], [3, None, 'fresh'], [2, None, 'fresh'],
+                        [0, None], [2, 'sort'], [2, None]], 'perm': rev})
+    # ---- explicit zero counts for elements no species contains, met BEFORE a present element:
+    #      oxygen-free and carbon-free networks from the C/O/H/N fields of the pinned thermdat ...
+    for names, feed in ((['CH3CH3', 'CH2CH2', 'H2', 'CH4'], [1, 0, 0, 0]), (['H2', 'CH4', 'CHCH', 'CH2CHCH3'], [0.5, 1, 0.2, 0]),
+                        (['H2O', 'H2'], [1, 0.5])):
+        D.append({'network': 'pinned', 'api': 'from_thermdat', 'names': names,
+                  'feed': [[n, f] for n, f in zip(names, feed)], 'points': [[1100.0, 1.0], [1400.0, 0.1]],
+                  'perm': list(range(len(names) - 1, -1, -1))})
+    # ... and the same with Nasa objects: ammonia synthesis with thermdat-style C/O/H/N dictionaries,
+    #     an absent element first / in the middle
+    nh = [_mk_sp('N2', {'C': 0, 'O': 0, 'H': 0, 'N': 2}, -25.0), _mk_sp('H2', {'C': 0, 'O': 0, 'H': 2, 'N': 0}, -17.0),
+          _mk_sp('NH3', {'C': 0, 'O': 0, 'H': 3, 'N': 1}, -24.0)]
+    for api in ('model_list', 'model_dict', 'from_thermdat'):
+        d = {'network': 'random', 'api': api, 'species': nh, 'feed': [['N2', 1], ['H2', 3], ['NH3', 0]],
+             'points': [[700.0, 100.0], [1000.0, 1.0]], 'perm': [2, 0, 1]}
+        if api == 'from_thermdat':
+            d.update(file_order=[1, 2, 0], zero_slots=True, decoys=1, reuse='rewrite')
+        D.append(d)
+    hx = [_mk_sp('HCl', {'H': 1, 'Ar': 0, 'Cl': 1}, -30.0), _mk_sp('H2', {'Ar': 0, 'H': 2}, -16.0),
+          _mk_sp('Cl2', {'Cl': 2, 'He': 0}, -28.0), _mk_sp('Cl', {'He': 0, 'Ar': 0, 'Cl': 1}, -10.0)]
+    D.append({'network': 'random', 'api': 'model_list', 'species': hx,
+              'feed': [['HCl', 2], ['H2', 0], ['Cl2', 0.1], ['Cl', 0]], 'points': [[1500.0, 1.0]], 'perm': [3, 1, 0, 2]})
     # widest allowed span, four elements, twelve species
     import random
     rng = random.Random('C16-directed')
@@ -594,8 +723,23 @@ def _pin_blas_threads():
 
 
 # ------------------------------------------------------------------ driver
+def _previous_tenant(sp, i):
+    """same name and formula, other thermodynamics (what was at that path before)"""
+    d = dict(sp)
+    shift = 1000.0 * (1 + (i * 3) % 4) * (-1) ** i
+    d['a_low'] = list(sp['a_low'][:5]) + [q9(sp['a_low'][5] + shift), q9(sp['a_low'][6] + 0.5 * i)]
+    d['a_high'] = list(sp['a_high'][:5]) + [q9(sp['a_high'][5] + shift), q9(sp['a_high'][6] + 0.5 * i)]
+    return d
+
+
 def _species_of(spec, ctx):
-    """-> (species list in network order, thermdat path or None)"""
+    """-> (species list in network order, thermdat path or None).
+
+    For generated thermdat files the path string is deliberately NOT unique: before the file of this
+    case is written, another file (same species names, other thermodynamics) is put at the very same
+    path string and read + solved through from_thermdat.  'rewrite': one absolute path per shard,
+    overwritten (also from case to case); 'chdir': the relative name 'thermdat' in two working
+    directories.  The current directory is restored by run_case."""
     if spec['network'] == 'pinned':
         path = os.path.join(core.repo_path(), PINNED_REL)
         table = parse_thermdat(path)
@@ -603,7 +747,6 @@ def _species_of(spec, ctx):
     species = spec['species']
     path = None
     if spec['api'] == 'from_thermdat':
-        path = os.path.join(ctx.tmpdir, 'thermdat_%s.txt' % ctx.case_index)
         in_file = [species[i] for i in spec['file_order']]
         for k in range(spec.get('decoys', 0)):
             d = dict(species[k % len(species)])
@@ -612,8 +755,42 @@ def _species_of(spec, ctx):
             d['a_high'] = [q9(v * 0.75 - 1.0) for v in d['a_high']]
             d['elements'] = {e: v + 1 for e, v in d['elements'].items()}
             in_file.insert((k * 2) % (len(in_file) + 1), d)
-        write_thermdat(path, in_file, spec.get('zero_slots', False))
+        zs = spec.get('zero_slots', False)
+        reuse = spec.get('reuse', 'rewrite')
+        before = [_previous_tenant(sp, i) for i, sp in enumerate(in_file)]
+        if reuse == 'chdir':
+            da, db = os.path.join(ctx.tmpdir, 'wd_a'), os.path.join(ctx.tmpdir, 'wd_b')
+            os.makedirs(da, exist_ok=True)
+            os.makedirs(db, exist_ok=True)
+            path = 'thermdat'
+            write_thermdat(os.path.join(da, path), before, zs)
+            os.chdir(da)
+            _touch_path(spec, path)
+            write_thermdat(os.path.join(db, path), in_file, zs)
+            os.chdir(db)
+            ctx.cls('history:thermdat_same_name_other_dir')
+        else:
+            path = os.path.join(ctx.tmpdir, 'thermdat')
+            write_thermdat(path, before, zs)
+            _touch_path(spec, path)
+            write_thermdat(path, in_file, zs)
+            ctx.cls('history:thermdat_path_rewritten')
     return species, path
+
+
+def _touch_path(spec, path):
+    """read + solve the previous content of the path through the real API (history only: nothing
+    is asserted about that network, its G/RT span is not controlled)"""
+    from pmutt.equilibrium import Equilibrium
+    try:
+        with warnings.catch_warnings():
+            warnings.simplefilter('ignore')
+            eq = Equilibrium.from_thermdat(path, {n: f for n, f in spec['feed']})
+            eq.get_net_comp(T=spec['points'][0][0], P=spec['points'][0][1])
+    except core.HarnessError:
+        raise
+    except Exception:           # noqa
+        pass
 
 
 def _build(spec, species, path, order, ctx, mech):
@@ -664,7 +841,55 @@ def _bump(ctx, key, val):
         ctx.max_err[key] = val
 
 
+def _zero_leading(species, order):
+    """an element that no species contains is listed (count 0) and met, in the order in which the
+    constructor walks species and their element dictionaries, BEFORE an element that is present"""
+    met = []
+    for i in order:
+        for e in species[i]['elements']:
+            if e not in met:
+                met.append(e)
+    present = set(_elements_of(species))
+    seen_absent = False
+    for e in met:
+        if e not in present:
+            seen_absent = True
+        elif seen_absent:
+            return True
+    return False
+
+
+def _edit_in_place(res, kind):
+    """what a caller may do to a returned composition (unit change, renormalisation, clean-up)"""
+    import numpy as np
+    m, f = res.moles, res.mole_frac
+    if not (isinstance(m, np.ndarray) and isinstance(f, np.ndarray)):
+        return False
+    if kind == 'mmol':
+        m *= 1000.0
+    elif kind == 'percent':
+        f *= 100.0
+    elif kind == 'normalise':
+        m /= m.sum()
+    elif kind == 'zero_traces':
+        m[m < 1e-3 * m.max()] = 0.0
+        f[f < 1e-3] = 0.0
+        m += 1.0
+    else:
+        m.sort()
+        f[:] = f[::-1].copy()
+    return True
+
+
 def run_case(spec, ctx):
+    cwd = os.getcwd()
+    try:
+        _run_case(spec, ctx)
+    finally:
+        os.chdir(cwd)
+
+
+def _run_case(spec, ctx):
     import numpy as np
     from vf.ref import gibbs
     _pin_blas_threads()
@@ -681,6 +906,7 @@ def run_case(spec, ctx):
     nreact = ns - rk
     net = spec['network']
     base = {'network': net, 'rank': rank_cls}
+    ident = list(range(ns))
     # ---- input classes
     ctx.cls('network:' + net, 'rank:' + rank_cls, 'elements:%d' % len(elems))
     ctx.cls('species:2-3' if ns <= 3 else 'species:4-7' if ns <= 7 else 'species:8-12')
@@ -689,6 +915,11 @@ def run_case(spec, ctx):
     ctx.cls('feed:all_positive' if nz == ns else 'feed:single_species' if nz == 1 else 'feed:some_zero')
     if spec['perm'] != list(range(ns)):
         ctx.cls('perm:nontrivial')
+    if any(v == 0 for sp in species for v in sp['elements'].values()):
+        ctx.cls('elements:zero_count_listed')
+    if _zero_leading(species, ident) or _zero_leading(species, spec['perm']):
+        ctx.cls('elements:zero_count_leading')
+        ctx.cls('elements:zero_count_leading(%s)' % ('thermdat' if path is not None else 'model'))
     if path is not None and net == 'random':
         if spec.get('zero_slots'):
             ctx.cls('thermdat:zero_count_slots')
@@ -701,14 +932,20 @@ def run_case(spec, ctx):
     mech0 = dict(base, solver_status='not_run', signalled=False, api=spec['api'],
                  n_elements='1' if len(elems) == 1 else '>=2')
     # ---- build both orderings through the real API
-    ident = list(range(ns))
     eq1 = _build(spec, species, path, ident, ctx, mech0)
     if eq1 is core.NOVALUE:
         return
     eq2 = _build(spec, species, path, spec['perm'], ctx, mech0)
     if eq2 is core.NOVALUE:
         return
-    for T, P in spec['points']:
+    points = [list(tp) for tp in spec['points']]
+    calls = spec.get('calls') or [[k, None] for k in range(len(points))]
+    info = {}
+
+    def point_info(k):
+        if k in info:
+            return info[k]
+        T, P = points[k]
         g = np.array([g_ref(sp, T) for sp in species])
         span = float(g.max() - g.min())
         mu0 = g + math.log(P * ATM_IN_BAR)
@@ -734,20 +971,111 @@ def run_case(spec, ctx):
             regime = 'regular'
         ctx.cls('regime:' + regime)
         pbase['regime'] = regime
-        runs = []
-        for tag, eq, order in (('listed', eq1, ident), ('permuted', eq2, spec['perm'])):
-            r = _run_one(ctx, spec, eq, order, species, T, P, A, b, bsum, g, mu0, ref, pbase, tag, nreact)
-            runs.append(r)
-        # ---- Q5 order independence
-        if runs[0] is not None and runs[1] is not None and regime == 'unknown':
+        info[k] = (g, span, mu0, ref, pbase, regime)
+        return info[k]
+
+    def m7(status, signalled, what):
+        return {'what': what, 'network': net, 'rank': rank_cls, 'solver_status': status,
+                'signalled': bool(signalled)}
+
+    # ---- the listed order: ONE object driven through the call history; every call is fully checked
+    first = {}            # point index -> (moles in spec order, status) of the first call there
+    live = []             # (result object, copy of its arrays as the caller left them, call number)
+    prev = None
+    for ci, call in enumerate(calls):
+        k, edit = call[0], call[1]
+        fresh = len(call) > 2 and call[2] == 'fresh'
+        T, P = points[k]
+        g, span, mu0, ref, pbase, regime = point_info(k)
+        if prev is not None:
+            Tp, Pp = points[prev[0]]
+            if (Tp, Pp) == (T, P):
+                ctx.cls('history:repeat_same_TP_after_inplace_edit' if prev[1] else 'history:repeat_same_TP')
+            elif Tp == T:
+                ctx.cls('history:same_T_other_P')
+            elif Pp == P:
+                ctx.cls('history:same_P_other_T')
+            if k in first and prev[0] != k:
+                ctx.cls('history:revisit_after_other_conditions')
+        out = {}
+        r = _run_one(ctx, spec, eq1, ident, species, T, P, A, b, bsum, g, mu0, ref, pbase,
+                     'listed, call %d of %s' % (ci + 1, [c[:2] for c in calls]), nreact, out)
+        res = out.get('res')
+        st, sg = out.get('status'), out.get('signalled')
+        # Q7a  results handed out earlier are not touched by a later call
+        for obj, em, ef, cj in live:
+            try:
+                same = bool(np.array_equal(np.asarray(obj.moles), em) and
+                            np.array_equal(np.asarray(obj.mole_frac), ef))
+            except Exception:       # noqa
+                same = False
+            ctx.check('Q7', same, m7(st, sg, 'earlier_result_changed_by_later_call'), T=T, P=P,
+                      earlier_call=cj + 1, this_call=ci + 1)
+        # Q7b  same object, same (T, P) again: the same composition as the first time
+        if r is not None and first.get(k) is not None and first[k][1] == r[1]:
+            what = ('repeat_same_TP' if prev is not None and prev[0] == k else 'revisit_after_other_conditions')
+            if prev is not None and prev[0] == k and prev[1]:
+                what = 'repeat_same_TP_after_inplace_edit'
+            _bump(ctx, 'Q7[%s]' % what, ctx.err(r[0], first[k][0], bsum))
+            ctx.close('Q7', r[0], first[k][0], TOL_Q7, m7(st, sg, what), scale=bsum, T=T, P=P,
+                      call=ci + 1, calls=calls, points=points)
+        if k not in first:
+            first[k] = r
+        # Q7c  same conditions on a newly built object: the call history does not matter
+        if fresh and r is not None:
+            eqf = _build(spec, species, path, ident, ctx, mech0)
+            if eqf is not core.NOVALUE:
+                rf, ef_, wf, mf, _a = _solve(eqf, T, P)
+                okf = bool(mf) and mf[-1]['success'] is True and ef_ is None and rf is not None
+                if okf and r[1] == 'ok':
+                    nf = np.array(rf.moles, dtype=float)
+                    _bump(ctx, 'Q7[vs_fresh_object]', ctx.err(r[0], nf, bsum))
+                    ctx.close('Q7', r[0], nf, TOL_Q7, m7(st, sg, 'reused_object_vs_fresh_object'), scale=bsum,
+                              T=T, P=P, call=ci + 1, calls=calls, points=points)
+        if res is not None:
+            if edit:
+                try:
+                    if _edit_in_place(res, edit):
+                        ctx.branch('caller_edit:' + edit)
+                except Exception:   # noqa  (read-only arrays would be a legitimate defence)
+                    ctx.branch('caller_edit:refused')
+            try:
+                live.append((res, np.array(res.moles, dtype=float, copy=True),
+                             np.array(res.mole_frac, dtype=float, copy=True), ci))
+                live = live[-3:]
+            except Exception:       # noqa
+                pass
+        prev = (k, edit)
+    # ---- Q7d  the same network through the other API (thermdat file vs Nasa objects): same result
+    if path is not None and net == 'random' and first.get(calls[0][0]) is not None:
+        k = calls[0][0]
+        T, P = points[k]
+        alt = dict(spec, api='model_list')
+        eqm = _build(alt, species, None, ident, ctx, mech0)
+        if eqm is not core.NOVALUE:
+            rm, em_, wm, mm, _a = _solve(eqm, T, P)
+            if mm and mm[-1]['success'] is True and em_ is None and rm is not None and first[k][1] == 'ok':
+                nm = np.array(rm.moles, dtype=float)
+                _bump(ctx, 'Q7[thermdat_vs_model_objects]', ctx.err(first[k][0], nm, bsum))
+                ctx.close('Q7', first[k][0], nm, TOL_Q7, m7('ok', False, 'thermdat_vs_model_objects'),
+                          scale=bsum, T=T, P=P, reuse=spec.get('reuse', 'rewrite'))
+    # ---- the permuted order: each point once; Q5 against the first call of the listed order
+    for k in range(len(points)):
+        T, P = points[k]
+        g, span, mu0, ref, pbase, regime = point_info(k)
+        r2 = _run_one(ctx, spec, eq2, spec['perm'], species, T, P, A, b, bsum, g, mu0, ref, pbase,
+                      'permuted', nreact, {})
+        r1 = first.get(k)
+        if r1 is None or r2 is None:
+            continue
+        (n1, s1), (n2, s2) = r1, r2
+        if regime == 'unknown':
             ctx.inconc('Q5', 'regime_unknown(reference_not_converged)', T=T, P=P)
-        elif runs[0] is not None and runs[1] is not None and span > 60.0:
+        elif span > 60.0:
             # outside the quantifier (pinned network at low T): telemetry only
-            (n1, s1), (n2, s2) = runs
             if s1 == 'ok' and s2 == 'ok':
                 _bump(ctx, 'telemetry:Q5[%s,%s,span>60]' % (rank_cls, regime), ctx.err(n2, n1, bsum))
-        elif runs[0] is not None and runs[1] is not None:
-            (n1, s1), (n2, s2) = runs
+        else:
             mech = dict(pbase, what='moles', solver_status=s1 if s1 != 'ok' else s2, signalled=False)
             if s1 == 'ok' and s2 == 'ok':
                 _bump(ctx, 'Q5[%s,%s]' % (rank_cls, regime), ctx.err(n2, n1, bsum))
@@ -759,7 +1087,7 @@ def run_case(spec, ctx):
                     ctx.nontrivial()
 
 
-def _run_one(ctx, spec, eq, order, species, T, P, A, b, bsum, g, mu0, ref, pbase, tag, nreact):
+def _run_one(ctx, spec, eq, order, species, T, P, A, b, bsum, g, mu0, ref, pbase, tag, nreact, out):
     """Solve one ordering; evaluate Q6, then Q1-Q4 unless waived.  Returns (moles in spec
     order, mech) when the run counts for Q5, else None."""
     import numpy as np
@@ -776,6 +1104,7 @@ def _run_one(ctx, spec, eq, order, species, T, P, A, b, bsum, g, mu0, ref, pbase
         status = 'ok' if not failed else m['status']
     hist = ctx.extra['status_histogram']
     hist[str(status)] = hist.get(str(status), 0) + 1
+    out.update(res=res, status=status, signalled=signalled)
     # Q1, Q2, Q6 are keyed by network / rank / solver outcome; Q3-Q5 additionally by the regime of the
     # equilibrium (regular | deep_trace | forced_zero) and the span class
     mech = {'network': pbase['network'], 'rank': pbase['rank'], 'solver_status': status, 'signalled': signalled}
